@@ -23,7 +23,7 @@ EXTENDS QueryLog
 Trace == TLCEval(ndJsonDeserialize("trace.ndjson"))   \* TLCEval: read the file once
 
 VARIABLES l, bad
-tvars == <<mem, cur, rot, batch, flushPending, memSize, fileEnabled, enabled, anon, ign, clock, pal,
+tvars == <<mem, cur, rot, batch, flushPending, memSize, fileEnabled, enabled, anon, ign, clock, pal, flight,
            recorded, inScope, lastReply, l, bad>>
 
 Compact(q) == IF q = <<>> THEN <<0, 0, 0>> ELSE <<Len(q), q[1].ts, q[Len(q)].ts>>
@@ -38,12 +38,13 @@ TInit ==
     /\ mem = <<>> /\ cur = <<>> /\ rot = <<>> /\ batch = <<>> /\ flushPending = FALSE
     /\ memSize = Trace[1].ms /\ fileEnabled = (Trace[1].en = 1)
     /\ enabled = TRUE /\ anon = FALSE /\ ign = FALSE /\ clock = 0 /\ pal = 0
-    /\ recorded = <<>> /\ inScope = TRUE /\ lastReply = [st |-> "none"]
+    /\ recorded = <<>> /\ inScope = TRUE /\ flight = <<>> /\ lastReply = [st |-> "none"]
     /\ l = 2 /\ bad = {}
 
 Call(e) ==
     \/ e.ev = "rec"       /\ RecordE(e.name, e.cli, e.reason)
     \/ e.ev = "recn"      /\ RecordMany(e.n, e.name, e.cli, e.reason)
+    \/ e.ev = "burst"     /\ Burst(e.tss, e.name, e.cli, e.reason)
     \/ e.ev = "flush"     /\ Flush
     \/ e.ev = "flushfail" /\ FlushFails
     \/ e.ev = "autoflushfail" /\ AutoFlushFails
